@@ -192,12 +192,14 @@ fn run_real(g: &G, mode_dfs: bool, limit: usize) -> Vec<Vec<String>> {
     let vars: Vec<T> = vec![LTerm::var("x0"), LTerm::var("x1"), LTerm::var("x2")];
     let goal: Goal<U, E> = if mode_dfs {
         // a top-level conjunction in construction form 2 is handed to `dfs` as ONE clause with several goals
-        // (`dfs { [g1, g2, ..] }`), every other goal as one clause with one goal
-        let body: Vec<DFSGoal<U, E>> = match g {
-            G::Conj(2, gs) => gs.iter().map(|x| build_dfs(x, &vars)).collect(),
-            _ => vec![build_dfs(g, &vars)],
+        // (`dfs { [g1, g2, ..] }`), in form 1 as one clause per goal (`dfs { g1, g2, .. }`, what the macro emits),
+        // every other goal as one clause with one goal
+        let clauses: Vec<Vec<DFSGoal<U, E>>> = match g {
+            G::Conj(2, gs) => vec![gs.iter().map(|x| build_dfs(x, &vars)).collect()],
+            G::Conj(1, gs) => gs.iter().map(|x| vec![build_dfs(x, &vars)]).collect(),
+            _ => vec![vec![build_dfs(g, &vars)]],
         };
-        let refs: Vec<&[DFSGoal<U, E>]> = vec![&body[..]];
+        let refs: Vec<&[DFSGoal<U, E>]> = clauses.iter().map(|c| &c[..]).collect();
         dfs::<U, E, Goal<U, E>>(OperatorParam::new(&refs)).cast_into()
     } else { build_bfs(g, &vars) };
     let mut solver: Solver<U, E> = Solver::new((), false);
@@ -323,10 +325,72 @@ fn fairness(rep: &mut Report) {
     }
 }
 
+
+// ---- programs written in the surface syntax (proto_vulcan! macros): the macros are outside the verifier's reach, so
+// the way they hand clause lists to the operator entry points is checked on fixed programs, each against the
+// reference tree it is documented to denote (covers `true`/`false` clauses, bracketed clauses, one-goal clauses)
+fn macro_scenarios(rep: &mut Report) {
+    use proto_vulcan::prelude::*;
+    use proto_vulcan::operator::conde::cond;
+    let choice = |v: usize| G::Disj(0, vec![vec![G::Eq(v, 1)], vec![G::Eq(v, 2)], vec![G::Eq(v, 3)]]);
+    type Mk = fn(&T, &T, &T) -> Goal<U, E>;
+    macro_rules! mk { ($x0:ident, $x1:ident, $x2:ident, $e:expr) => { |a: &T, b: &T, c: &T| { #[allow(unused_variables)] let ($x0, $x1, $x2) = (a.clone(), b.clone(), c.clone()); $e } } }
+    let cases: Vec<(&str, G, Mk, bool)> = vec![
+        ("conda{[x0==1,false],true,x0==2}", G::Conda(vec![vec![G::Eq(0, 1), G::Fail], vec![G::Succ], vec![G::Eq(0, 2)]]),
+            mk!(x0, x1, x2, proto_vulcan!(conda { [x0 == 1, false], true, x0 == 2 })), false),
+        ("conda{[false,x0==1],true}", G::Conda(vec![vec![G::Fail, G::Eq(0, 1)], vec![G::Succ]]),
+            mk!(x0, x1, x2, proto_vulcan!(conda { [false, x0 == 1], true })), false),
+        ("condu{false,true,x0==2}", G::Condu(vec![vec![G::Fail], vec![G::Succ], vec![G::Eq(0, 2)]]),
+            mk!(x0, x1, x2, proto_vulcan!(condu { false, true, x0 == 2 })), false),
+        ("condu{[x0==1,conde{x1==1,x1==2}],x0==3}", G::Condu(vec![vec![G::Eq(0, 1), G::Disj(0, vec![vec![G::Eq(1, 1)], vec![G::Eq(1, 2)]])], vec![G::Eq(0, 3)]]),
+            mk!(x0, x1, x2, proto_vulcan!(condu { [x0 == 1, conde { x1 == 1, x1 == 2 }], x0 == 3 })), false),
+        ("conde{true,x0==1,[x0==2,true],false}", G::Disj(0, vec![vec![G::Succ], vec![G::Eq(0, 1)], vec![G::Eq(0, 2), G::Succ], vec![G::Fail]]),
+            mk!(x0, x1, x2, proto_vulcan!(conde { true, x0 == 1, [x0 == 2, true], false })), false),
+        ("onceo{x0==1,x1==1}", G::Onceo(vec![G::Eq(0, 1), G::Eq(1, 1)]),
+            mk!(x0, x1, x2, proto_vulcan!(onceo { x0 == 1, x1 == 1 })), false),
+        ("onceo{x0==1,x0==2}", G::Onceo(vec![G::Eq(0, 1), G::Eq(0, 2)]),
+            mk!(x0, x1, x2, proto_vulcan!(onceo { x0 == 1, x0 == 2 })), false),
+        ("onceo{true}", G::Onceo(vec![G::Succ]), mk!(x0, x1, x2, proto_vulcan!(onceo { true })), false),
+        ("dfs{conde-3x3}", G::Conj(0, vec![choice(0), choice(1)]),
+            mk!(x0, x1, x2, proto_vulcan!(dfs { cond { x0 == 1, x0 == 2, x0 == 3 }, cond { x1 == 1, x1 == 2, x1 == 3 } })), true),
+        ("dfs{[c3,c3]}", G::Conj(0, vec![choice(0), choice(1)]),
+            mk!(x0, x1, x2, proto_vulcan!(dfs { [cond { x0 == 1, x0 == 2, x0 == 3 }, cond { x1 == 1, x1 == 2, x1 == 3 }] })), true),
+        ("dfs{cond{[c3,c3],x2==1}}", G::Disj(0, vec![vec![choice(0), choice(1)], vec![G::Eq(2, 1)]]),
+            mk!(x0, x1, x2, proto_vulcan!(dfs { cond { [cond { x0 == 1, x0 == 2, x0 == 3 }, cond { x1 == 1, x1 == 2, x1 == 3 }], x2 == 1 } })), true),
+        ("[true,x0==1,[x1==2,x2==3]]", G::Conj(0, vec![G::Succ, G::Eq(0, 1), G::Eq(1, 2), G::Eq(2, 3)]),
+            mk!(x0, x1, x2, proto_vulcan!([true, x0 == 1, [x1 == 2, x2 == 3]])), false),
+        ("[x0==1,false]", G::Conj(0, vec![G::Eq(0, 1), G::Fail]), mk!(x0, x1, x2, proto_vulcan!([x0 == 1, false])), false),
+        ("x0!=1,conde", G::Conj(0, vec![G::Ne(vec![(A::V(0), A::K(1))]), choice(0)]),
+            mk!(x0, x1, x2, proto_vulcan!([x0 != 1, conde { x0 == 1, x0 == 2, x0 == 3 }])), false),
+    ];
+    for (name, g, mk, ordered) in cases {
+        rep.case("macro-syntax", format!("macro {}", name));
+        let exp: Vec<Vec<String>> = sem(&g, &Sub::new()).iter().map(|s| s.observe()).collect();
+        let out = guard_timeout(move || {
+            let vars: Vec<T> = vec![LTerm::var("x0"), LTerm::var("x1"), LTerm::var("x2")];
+            let goal = mk(&vars[0], &vars[1], &vars[2]);
+            let mut solver: Solver<U, E> = Solver::new((), false);
+            let mut stream = solver.start(&goal, State::new(DefaultUser::new()));
+            let mut out = vec![];
+            while out.len() < 1000 { match solver.next(&mut stream) { Some(st) => out.push(observe_state(&st, &vars)), None => break } }
+            out
+        }, 10);
+        match out {
+            Ok(got) => {
+                let (mut a, mut b) = (got.clone(), exp.clone());
+                if !ordered { a.sort(); b.sort(); }
+                if a != b { rep.fail("macro-syntax", name.to_string(), format!("{:?}", exp), format!("{:?}", got), "macro"); }
+            }
+            Err(e) => rep.fail("macro-syntax", name.to_string(), format!("{:?}", exp), e, "panic"),
+        }
+    }
+}
+
 pub fn search(tier: &str, seed: u64, _only: Option<&str>) {
     let n = if tier == "thorough" { 60_000 } else { 6_000 };
     let mut rep = Report::new("search", &format!("{} generated goal trees (depth <= 3, <= 3 clauses x <= 3 goals, 3 variables, constants 1..3; seed {}) + fixed shapes; every construction form of conj/disj", n, seed));
     fairness(&mut rep);
+    macro_scenarios(&mut rep);
     // fixed shapes: member-like choices, nested conj x disj with 3x3 answers (order-sensitive)
     let choice = |v: usize| G::Disj(0, vec![vec![G::Eq(v, 1)], vec![G::Eq(v, 2)], vec![G::Eq(v, 3)]]);
     for f in 0..4u8 { for d in 0..2u8 {
